@@ -153,7 +153,7 @@ func c20Check(c c20Case) (*eng.Fail, string) {
 
 func init() {
 	checks["C20"] = eng.Check{
-		Rule: "ELF64-LE files written by the harness: type in {NONE, REL, EXEC, DYN, CORE} x <=2 (thorough 3) user sections (type PROGBITS/NOBITS/NOTE x flags {0, ALLOC, ALLOC|EXEC} x addr {0, 0x1000, 0x1004, 0x1008} x size {0,4,8}) x <=2 program headers (type LOAD/NOTE x vaddr {0x1000,0x1004,0x1008} x filesz {0,4,8} x memsz {0,4,8,12} incl. memsz<filesz) — all combinations incl. overlapping and adjacent ones — through elf.NewParser/MachineCode/Memory/Entrypoint/Address. Oracle from the generator's description: REL/CORE/NONE and any overlap must be rejected; whatever loads must equal the description (code = qualifying sections as sorted blocks, adjacent ones not merged; memory = file bytes then zeros; Address(a) for every a in 0xff8..0x1020 = tail of its block or nil). Non-trivial = file for which both images load.",
+		Rule:        "ELF64-LE files written by the harness: type in {NONE, REL, EXEC, DYN, CORE} x <=2 (thorough 3) user sections (type PROGBITS/NOBITS/NOTE x flags {0, ALLOC, ALLOC|EXEC} x addr {0, 0x1000, 0x1004, 0x1008} x size {0,4,8}) x <=2 program headers (type LOAD/NOTE x vaddr {0x1000,0x1004,0x1008} x filesz {0,4,8} x memsz {0,4,8,12} incl. memsz<filesz) — all combinations incl. overlapping and adjacent ones — through elf.NewParser/MachineCode/Memory/Entrypoint/Address. Oracle from the generator's description: REL/CORE/NONE and any overlap must be rejected; whatever loads must equal the description (code = qualifying sections as sorted blocks, adjacent ones not merged; memory = file bytes then zeros; Address(a) for every a in 0xff8..0x1020 = tail of its block or nil). Non-trivial = file for which both images load.",
 		Assumptions: []string{"errors are always acceptable outcomes (the property allows 'reports an error'); crashes are not", "files are well-formed ELF64 containers (corruption is C26's domain)"},
 		Run: func(r *eng.Run) {
 			dir, err := os.MkdirTemp("", "vc20")
